@@ -209,6 +209,29 @@ def gen_long(rng, d, m, k, cycles):
     return h
 
 
+def gen_saturated(rng, d, m, k, cycles):
+    """a producer that is always ahead of the consumer: the queue is kept full for the whole run, every release is followed
+    by one successful claim and by refused ones (before the release, after the receive, after the refill), for more cycles
+    than any 8-bit counter or index of the structure has values - a refusal is attempted at every counter value"""
+    h = [f'init {d} {m} {k}']
+    f = Fifo(d, m)
+    for _ in range(d):
+        h.append('claim'); f.claimed += 1
+    for c in range(cycles):
+        if rng.chance(2, 3): h.append('claim')                       # full: NULL
+        unsent = [t for t in range(f.received, f.claimed) if t not in f.sent]
+        for t in (rng.shuffle(list(unsent)) if rng.chance(1, 4) else unsent[:1]):
+            h.append(f'send {f.off(t)}'); f.sent.add(t)
+        h.append('receive'); f.received += 1
+        if rng.chance(1, 2): h.append('claim')                       # received but not released: still full, NULL
+        h.append('release'); f.released += 1
+        h.append('claim'); f.claimed += 1                             # the freed buffer
+        if rng.chance(1, 2): h.append('claim')                       # full again: NULL
+        if rng.chance(1, 40): h.append('empty')
+    h += ['empty', 'state', 'guard']
+    return h
+
+
 def geometries(rng, n):
     """depth 1..32 (each depth at least once when n >= 32, 1/2/31/32 more often) x sizes x slack"""
     out = []
@@ -252,10 +275,12 @@ def exhaustive(d, m, k, maxlen):
 
 def harness(ctx):
     R = vlib.REPO
-    exe, log = ctx.cc('h_messageq', [os.path.join(vlib.VERIF, 'harness/h_messageq.c'), R + '/librfn/messageq.c'])
-    if not exe:
-        raise vlib.Infra('messageq harness does not compile against the repository: ' + log[-1500:])
-    return exe
+    return ctx.cc_harness('h_messageq', [os.path.join(vlib.VERIF, 'harness/h_messageq.c'), R + '/librfn/messageq.c'], what='messageq harness')
+
+
+def bb_norm(l):
+    """public-interface-only harness build: what init prints about the structure is masked on every side"""
+    return 'init eq=1 ?' if l.startswith('init eq=') else l
 
 
 def corpus():
@@ -280,6 +305,9 @@ def run(ctx):
     for d in long_depths:
         m = rng.choice([1, 3, 4, 8])
         hs.append(gen_long(rng, d, m, rng.below(m), rng.range(300, 400) if quick else rng.range(520, 800))); nlong += 1
+    for d in ([rng.choice([1, 2, 4, 8]), rng.choice([3, 5, 7, 12, 31, 32])] if quick else [1, 2, 3, 4, 5, 7, 8, 12, 16, 31, 32]):
+        m = rng.choice([1, 3, 4, 8])
+        hs.append(gen_saturated(rng, d, m, rng.below(m), rng.range(560, 700) if quick else rng.range(1100, 1400))); nlong += 1
     nexh = 0
     if not quick:
         for (d, m, k, L) in [(1, 3, 2, 10), (2, 7, 0, 8), (3, 4, 1, 7), (32, 1, 0, 4)]:
@@ -290,7 +318,8 @@ def run(ctx):
     # first what a caller can observe (pointers, NULLs, empty, guard bytes): a difference there is the property failing;
     # then the same histories with the `state` dumps (every field of the structure after every step): the model mirroring the code
     obs = [[l for l in h if l != 'state'] for h in hs]
-    agreed = vlib.correspond(ctx, 'messageq', [exe], obs, spec=spec, valid=valid, label='messageq (observable results)')
+    agreed = vlib.correspond(ctx, 'messageq', [exe], obs, spec=spec, valid=valid, label='messageq (observable results)',
+                             norm=bb_norm if ctx.blackbox else None)
     if not ctx.violations and not ctx.broken:
         agreed = vlib.correspond(ctx, 'messageq', [exe], hs, spec=spec, valid=valid, label='messageq (with structure contents)')
     depths, sizes, ops, nulls, wraps, b31 = {}, {}, {}, 0, 0, 0
@@ -329,4 +358,5 @@ def run(ctx):
 
 
 def replay(ctx, path):
-    return vlib.replay_ops(ctx, path, 'messageq', [harness(ctx)], spec=spec)
+    exe = harness(ctx)
+    return vlib.replay_ops(ctx, path, 'messageq', [exe], spec=spec, norm=bb_norm if ctx.blackbox else None)
